@@ -58,7 +58,7 @@ Definition enc_ok (cp : Z) : bool :=
 Definition enc_row_ok (hi : Z) : bool := sweep enc_ok 256 (hi * 256).
 
 Lemma enc_all_rows : sweep enc_row_ok (Z.to_nat 4352) 0 = true.
-Proof. vm_compute. reflexivity. Qed.
+Proof. vm_cast_no_check (eq_refl true). Qed.
 
 Lemma utf8_encode_agrees cp :
   0 <= cp <= 1114111 -> utf8_encode_c cp = Some (utf8_of_codepoint cp).
@@ -83,7 +83,7 @@ Definition pair_ok (hi lo : Z) : bool :=
 Definition pair_row_ok (hi : Z) : bool := sweep (pair_ok hi) 1024 56320.
 
 Lemma pair_all_rows : sweep pair_row_ok 1024 55296 = true.
-Proof. vm_compute. reflexivity. Qed.
+Proof. vm_cast_no_check (eq_refl true). Qed.
 
 Lemma pair_formula hi lo :
   is_high_surrogate hi = true -> is_low_surrogate lo = true ->
